@@ -284,6 +284,12 @@ def random_op(rng, impl, ti, *, labels, malformed=0.1, typed=False, ops=None, di
             op["deep"] = bool(op["deep"])
         if typed and rng.random() < 0.5:
             op["kind"] = impl.node(st, sp).kind
+        if op.get("via") != "copy_to" and rng.random() < 0.25:
+            # add(node, data_id=): the source's own id is accepted for a shallow copy, any other id (falsy ones too) is a
+            # "data_id conflict", and together with deep=True it is a ValueError
+            op["did"] = rng.choice([impl.node(st, sp).data_id, impl.node(st, sp).data_id, 0, "", 1001, "x"])
+            if isinstance(op["did"], int) and abs(op["did"]) >= 10**6:
+                del op["did"]       # a hash value: not reproducible across processes
         return op
     if k == "copykids":
         st = rng.randrange(len(impl.trees))
